@@ -10,7 +10,15 @@ Vocabulary (all evaluated on the symbolic heap by pyvc, nothing in /repo is edit
   DABS         = GHOST absolute end of the last decoded hit (what `decode_end` is meant to hold)   - C05
   own          = GHOST heap field: top node of the pre-assembled structure a node was allocated in (frames)
 """
-from pyvc.contract import Ghost, Loop, contract
+from pyvc.contract import Ghost, Loop, contract, lemma
+
+# Axioms about bytes.lower() and slicing (true of CPython's bytes by definition; validated at run time), used only as ground
+# instances to carry the case-insensitive view of C04 through the nesting (invariant J6).
+lemma("lower-commutes-with-slice", props=["C04"], vars={"x": "bytes", "s": "int", "e": "int"}, hyps=["0 <= s <= e <= len(x)"],
+      goal="lower(x[s:e]) == lower(x)[s:e]", notes="bytes.lower is pointwise", trusted=True)
+lemma("slice-of-slice", props=["C04"], vars={"x": "bytes", "a": "int", "b": "int", "s": "int", "e": "int"}, hyps=["0 <= a <= b <= len(x)", "0 <= s <= e <= b - a"],
+      goal="x[a:b][s:e] == x[a + s : a + e]", notes="definition of slicing", trusted=True)
+lemma("full-slice", props=["C04"], vars={"x": "bytes"}, hyps=[], goal="x[0 : len(x)] == x", notes="definition of slicing", trusted=True)
 
 # ------------------------------------------------------------------------------------------------ global tree well-formedness
 G1 = (
@@ -51,6 +59,8 @@ MAIN_INV = {
     "J0-ctx": "len(CTX) == len(stack) + 1 and CTX[len(stack)] == node and forall(range(len(stack)), lambda k: CTX[k] == stack[k])",
     "J0-shape": "len(ABSK) == len(stack) + 1 and len(CIDX) == len(stack) + 1 and len(EXTK) == len(stack) + 1 and 0 <= i <= len(results)",
     "J-ext": "forall(range(len(stack) + 1), lambda k: EXTK[k] == ABSK[k] + len(ctx(k).value))",
+    # ---- J6: the case-folded value of every open context is the case-folded slice of the scanned text it denotes (C04)
+    "J6-lower-view": "forall(range(len(stack) + 1), lambda k: lower(ctx(k).value) == lower(old(node).value)[ABSK[k] : EXTK[k]])",
     "J5-D-nonneg": "DABS >= 0",
     "J0-untouched": "forall(range(i, len(results)), lambda j: results[j].start == a_of(j) and results[j].end == b_of(j) and results[j].parent is None "
     "and nchildren(results[j]) == at(pre_L2, nchildren(results[j])))",
@@ -100,6 +110,10 @@ MAIN_STEP = {
     # ------------------------------------------------------------------ C04 (E2): the node denotes exactly [a, b)
     "E2-abs-start": "implies(attached(), old.ABSK[pk()] + hit.start == at(pre_L2, hit.start))",
     "E2-length": "implies(attached(), hit.end - hit.start == at(pre_L2, hit.end) - at(pre_L2, hit.start))",
+    # ... and its original slice equals text[a:b] up to ASCII letter case
+    "E2-original-is-the-text-covered": "implies(attached(), lower(hit.parent.value[hit.start : hit.end]) == lower(old(node).value)[at(pre_L2, hit.start) : at(pre_L2, hit.end)])",
+    "E2-context-value-is-the-text-covered": "implies(is_context(), lower(hit.value) == lower(old(node).value)[at(pre_L2, hit.start) : at(pre_L2, hit.end)] "
+    "and len(hit.value) == at(pre_L2, hit.end) - at(pre_L2, hit.start))",
     "E2-not-moved-otherwise": "implies(not attached(), nchildren(hit) == at(pre_L2, nchildren(hit)))",
     # ------------------------------------------------------------------ C05 (E3): siblings laminar
     "E3-sibling-starts": "implies(attached() and nchildren(hit.parent) >= 2, child_at(hit.parent, nchildren(hit.parent) - 2).start <= hit.start)",
@@ -173,6 +187,14 @@ contract(
             },
             inv=MAIN_INV,
             transition=MAIN_STEP,
+            cut=["E2-context-value-is-the-text-covered"],
+            hints=["full-slice: lower(old(node).value)[0 : len(lower(old(node).value))] == lower(old(node).value)"],
+            latch_hints=[
+                "lower-commutes-with-slice: implies(hit.parent is not None and 0 <= hit.start <= hit.end <= len(hit.parent.value), "
+                "lower(hit.parent.value[hit.start : hit.end]) == lower(hit.parent.value)[hit.start : hit.end])",
+                "slice-of-slice: implies(hit.parent is not None and 0 <= hit.start <= hit.end <= old.EXTK[pk()] - old.ABSK[pk()] and 0 <= old.ABSK[pk()] <= old.EXTK[pk()] <= len(old(node).value), "
+                "lower(old(node).value)[old.ABSK[pk()] : old.EXTK[pk()]][hit.start : hit.end] == lower(old(node).value)[old.ABSK[pk()] + hit.start : old.ABSK[pk()] + hit.end])",
+            ],
         ),
         3: Loop(inv=POP_INV, variant="len(stack)"),
     },
